@@ -15,6 +15,8 @@ import (
 	"os"
 	"strings"
 
+	cc "gitlab.com/gomidi/midi/v2/internal/verifh/conccases"
+	cp "gitlab.com/gomidi/midi/v2/internal/verifh/concpairs"
 	"gitlab.com/gomidi/midi/v2/internal/verifh/engine"
 	"gitlab.com/gomidi/midi/v2/internal/verifh/faultio"
 	"gitlab.com/gomidi/midi/v2/internal/verifh/refsmf"
@@ -311,6 +313,9 @@ func spaces() []space {
 func main() {
 	ctx = engine.Start("C02", "exploration")
 	if ctx.ReplayPath != "" {
+		if cp.Replay(ctx, ctx.LoadReplay(), "smf-read", cc.SMFRead()) {
+			ctx.Finish("replay")
+		}
 		replay()
 		return
 	}
@@ -327,6 +332,10 @@ func main() {
 			jobs = append(jobs, job{si, f})
 		}
 	}
+	ctx.Jobs("concurrent", 1, func(int) {
+		cp.Litmus(ctx)
+		cp.Check(ctx, "smf-read", cc.SMFRead())
+	})
 	ctx.Jobs("files", len(jobs), func(j int) {
 		s := sps[jobs[j].sp]
 		for _, depth := range s.depths {
